@@ -34,9 +34,8 @@
 (*    staking / unstaking against a delegatee slashed in the same block is  *)
 (*    refused ("power object is not equal").                                *)
 (* Not modelled here: contract execution (EvmBridge.tla; RigoConf.tla      *)
-(* adopts the recorded effect of contract transactions), the mempool        *)
-(* overlay's content (CheckTx is specified as having no effect on the      *)
-(* consensus state, which is what C06 demands).                            *)
+(* adopts the recorded effect of contract transactions).                   *)
+(* s.mem is the mempool's scratch view (CheckTx).                          *)
 (*                                                                         *)
 (* s.rank : [name -> Nat] is the byte order of the addresses (ties in the  *)
 (* power order, order of validator updates); it is part of the state so    *)
@@ -136,6 +135,18 @@ LimCheck(rk, lim, g, v, total, diff) ==
                                         ELSE LimSort(rk, SeqSet(lim.objs))]]
 
 ---------------------------------------------------------------------------
+(* A deletion made by block execution (delegatee emptied or jailed, unbonding stake refunded, proposal closed) is    *)
+(* applied to the mempool's scratch view at once (FinalityLedger.DelFinality deletes in both overlays); nothing     *)
+(* else of block execution is visible there before the commit.                                                     *)
+MirrorDel(s0, s1) ==
+  LET goneD == DOMAIN s0.delegs \ DOMAIN s1.delegs
+      goneF == {x.key : x \in SeqSet(s0.frozen)} \ {x.key : x \in SeqSet(s1.frozen)}
+      goneP == DOMAIN s0.props \ DOMAIN s1.props
+  IN [s1 EXCEPT !.mem.delegs = [d \in DOMAIN @ \ goneD |-> @[d]],
+                !.mem.frozen = SelectSeq(@, LAMBDA x : x.key \notin goneF),
+                !.mem.props = [p \in DOMAIN @ \ goneP |-> @[p]]]
+
+---------------------------------------------------------------------------
 (* BeginBlock *)
 
 \* slash the stakes of every (known) accused delegatee, once per evidence, totals recomputed
@@ -204,9 +215,11 @@ BeginBlock(s, hdr) ==
                       !.vol.allDelegs = [d \in {x \in DOMAIN s.tree.delegs : s.tree.delegs[x].self >= MinPower(g)} |-> s.tree.delegs[d]],
                       !.vol.limiter = LimReset(s.rank, [d \in {x \in DOMAIN s.tree.delegs : s.tree.delegs[x].self >= MinPower(g)} |-> s.tree.delegs[d]],
                                                g, Len(s.vol.lastVals) >= 3),
+                      !.mem.limiter = LimReset(s.rank, [d \in {x \in DOMAIN s.tree.delegs : s.tree.delegs[x].self >= MinPower(g)} |-> s.tree.delegs[d]],
+                                               g, Len(s.vol.lastVals) >= 3),
                       !.proposer = hdr.proposer]
       s1 == IF hdr.votes = <<>> THEN s0 ELSE ProcessVotes(s0, hdr.votes, H)
-  IN [s |-> s1, resp |-> [events |-> <<>>]]
+  IN [s |-> MirrorDel(s, s1), resp |-> [events |-> <<>>]]
 
 ---------------------------------------------------------------------------
 (* DeliverTx *)
@@ -215,13 +228,14 @@ SigValid(tx) == tx.auth = "valid"
 
 MaxInt64 == <<807, 775, 854, 36, 372, 223, 9>>     \* 2^63 - 1
 
-Common0(s, tx) ==
+\* exec = FALSE is the mempool check: the signature is verified only when a block is executed
+Common0(s, tx, exec) ==
   /\ tx.fromLen = 20 /\ tx.toLen = 20
   /\ BLt(tx.amount, Two255)
   /\ BLeq(tx.gas, MaxInt64)
   /\ tx.gasPrice = s.gov.gasPrice
   /\ ~BLt(Fee(tx, s.gov), BMul(s.gov.minTrxGas, s.gov.gasPrice))
-  /\ SigValid(tx)
+  /\ (exec => SigValid(tx))
 
 Common1(s, tx) ==
   /\ BLeq(BAdd(Fee(tx, s.gov), tx.amount), Bal(s, tx.from))
@@ -347,12 +361,12 @@ ValidSetDoc(s, tx) == tx.payload.nameLen <= 2048 /\ tx.payload.urlLen <= 2048
 ExecSetDoc(s, tx) ==
   Done([s EXCEPT !.accts = Put(@, tx.from, [Acct(s, tx.from) EXCEPT !.name = tx.payload.name, !.url = tx.payload.url])], tx)
 
-DeliverTx(s, tx) ==
+Execute(s, tx, exec) ==
   IF tx.type = "garbage" \/ tx.from \notin DOMAIN s.accts THEN Fail(s, tx)
   ELSE
     \* the (empty) receiver account is created before validation
     LET s0 == IF tx.to \in DOMAIN s.accts THEN s ELSE [s EXCEPT !.accts = Put(@, tx.to, EmptyAcct)] IN
-    IF ~Common0(s0, tx) \/ ~Common1(s0, tx) THEN Fail(s0, tx)
+    IF ~Common0(s0, tx, exec) \/ ~Common1(s0, tx) THEN Fail(s0, tx)
     ELSE CASE tx.type = "transfer"  -> ExecTransfer(s0, tx)
            [] tx.type = "staking"   -> IF ValidStaking(s0, tx)
                                          THEN LET lr == LimitStaking(s0, tx) IN
@@ -367,6 +381,23 @@ DeliverTx(s, tx) ==
            [] tx.type = "voting"    -> IF ValidVoting(s0, tx) THEN ExecVoting(s0, tx) ELSE Fail(s0, tx)
            [] tx.type = "setdoc"    -> IF ValidSetDoc(s0, tx) THEN ExecSetDoc(s0, tx) ELSE Fail(s0, tx)
            [] OTHER -> Fail(s0, tx)
+
+DeliverTx(s, tx) == LET r == Execute(s, tx, TRUE) IN [r EXCEPT !.s = MirrorDel(s, r.s)]
+
+---------------------------------------------------------------------------
+(* the mempool's scratch view (CheckTx): the state as COMMITTED plus the effects of the transactions checked since,  *)
+(* with its own stake limiter; the parameters and the reported validator set are the live ones.  Nothing of it is     *)
+(* visible to block execution and a commit discards it (C06).                                                       *)
+
+MemOf(s) == [accts |-> s.accts, delegs |-> s.delegs, frozen |-> s.frozen, rewards |-> s.rewards, props |-> s.props, limiter |-> s.vol.limiter]
+
+MemView(s) ==
+  [s EXCEPT !.accts = s.mem.accts, !.delegs = s.mem.delegs, !.frozen = s.mem.frozen, !.rewards = s.mem.rewards, !.props = s.mem.props,
+            !.vol.limiter = s.mem.limiter,
+            !.h = s.lastH + 1]       \* a checked transaction is validated for the block expected to include it
+
+CheckTx(s, tx) ==
+  LET r == Execute(MemView(s), tx, FALSE) IN [s |-> [s EXCEPT !.mem = MemOf(r.s)], resp |-> r.resp]
 
 ---------------------------------------------------------------------------
 (* EndBlock *)
@@ -437,7 +468,7 @@ EndBlock(s) ==
       newSeq == PowerSeq(s.rank, cands, new)     \* the reported set is kept in power order
       s5 == [s4 EXCEPT !.vol.lastVals = [i \in 1..Len(newSeq) |-> [v |-> newSeq[i], pow |-> cands[newSeq[i]].total]],
                        !.vol.limiter.on = Len(newSeq) >= 3]
-  IN [s |-> s5, resp |-> [valUpdates |-> ups, events |-> <<>>]]
+  IN [s |-> MirrorDel(s, s5), resp |-> [valUpdates |-> ups, events |-> <<>>]]
 
 ---------------------------------------------------------------------------
 (* Commit, CheckTx, Restart *)
@@ -448,11 +479,10 @@ Commit(s) ==
                       !.prevGov = s.gov,     \* the parameters that were in force during the block just committed
                       !.gov = IF s.govPending.some THEN s.govPending.v ELSE @,
                       !.govPending = [some |-> FALSE],
-                      !.lastH = s.h, !.inblock = FALSE, !.feeSum = <<>>, !.txCount = 0, !.proposer = "none"]
+                      !.lastH = s.h, !.inblock = FALSE, !.feeSum = <<>>, !.txCount = 0, !.proposer = "none",
+                      !.mem = [MemOf(s) EXCEPT !.limiter = s.mem.limiter]]    \* the scratch view is discarded
   IN [s |-> s1, resp |-> [hash |-> "h"]]
 
-\* mempool validation works on a scratch view: no effect on the consensus state (C06)
-CheckTx(s, tx) == [s |-> s, resp |-> [ok |-> TRUE]]
 
 \* a restarted process: the overlay caches are gone (they equal the committed trees at a block boundary),
 \* the volatile validator set is rebuilt from the delegatee ledger of the previous version with the parameters
@@ -463,6 +493,7 @@ Restart(s) ==
       new == PowerSeq(s.rank, cands, TopN(s.rank, cands, DOMAIN cands, s.prevGov.maxValidatorCnt))
   IN [s |-> [s EXCEPT !.vol.lastVals = [i \in 1..Len(new) |-> [v |-> new[i], pow |-> cands[new[i]].total]],
                       !.vol.allDelegs = cands,
-                      !.vol.limiter = [NoLimiter EXCEPT !.on = Len(new) >= 3]],
+                      !.vol.limiter = [NoLimiter EXCEPT !.on = Len(new) >= 3],
+                      !.mem = [MemOf(s) EXCEPT !.limiter = [NoLimiter EXCEPT !.on = Len(new) >= 3]]],
       resp |-> [h |-> s.lastH, hash |-> "h"]]
 =============================================================================
